@@ -460,7 +460,9 @@ def closure_uses(prog):
         def ops_locals(x, out):
             if isinstance(x, dict):
                 if x.get("k") in ("move", "copy") and "p" in x:
-                    out.add(x["p"]["l"])
+                    # (reading a captured variable out of the environment is not a use of the closure as a value)
+                    if not any(e.get("k") == "field" for e in x["p"]["proj"]):
+                        out.add(x["p"]["l"])
                 for v in x.values():
                     ops_locals(v, out)
             elif isinstance(x, list):
